@@ -42,6 +42,7 @@ type tmpfile struct {
 	bucket     string
 	objname    string
 	isOTmp     bool
+	linked     bool
 	size       int64
 	needsChown bool
 	uid        int
@@ -283,6 +284,7 @@ func (tmp *tmpfile) fallbackLink() error {
 		// if this fails fallback to copy
 		return backend.MoveFile(tempname, objPath, fs.FileMode(defaultFilePerm))
 	}
+	tmp.linked = true
 
 	verifhook.Point("flink.afterRename")
 	return nil
@@ -300,6 +302,11 @@ func (tmp *tmpfile) Write(b []byte) (int, error) {
 
 func (tmp *tmpfile) cleanup() {
 	tmp.f.Close()
+	if !tmp.isOTmp && !tmp.linked {
+		// a named temp file that was never moved into place (failed
+		// or refused upload) must not stay behind
+		os.Remove(tmp.f.Name())
+	}
 }
 
 func (tmp *tmpfile) File() *os.File {
